@@ -202,4 +202,79 @@ theorem run_inv (ops : List Op) : ∀ {s : St}, Inv s → Inv (run s ops) := by
   | nil => intro s h; exact h
   | cons op ops ih => intro s h; exact ih (step_inv h op)
 
+/-! ### refinement: the abstract specification is the relation SET alone
+
+`specStep` says what every operation does to the set of (consumer, target, monitor) triples and never
+mentions the index; `step_refines` shows the implementation model (which maintains and, in
+`CleanupTarget` / `GetConsumersForTarget`, *reads* the index) agrees with it in every state that satisfies
+the invariant — hence, by `run_inv`, in every reachable state. -/
+
+def specStep (rel : List Key) : Op → List Key
+  | .addLink c t => if (⟨c, t, false⟩ : Key) ∈ rel then rel else ⟨c, t, false⟩ :: rel
+  | .addMonitor c t => if (⟨c, t, true⟩ : Key) ∈ rel then rel else ⟨c, t, true⟩ :: rel
+  | .removeLink c t => rel.erase ⟨c, t, false⟩
+  | .removeMonitor c t => rel.erase ⟨c, t, true⟩
+  | .cleanupConsumer c => rel.filter (fun k => !decide (k.consumer = c))
+  | .cleanupTarget t => rel.filter (fun k => !decide (k.target = t))
+  | .cleanupNode n => rel.filter (fun k => !consumerOn n k && !targetOn n k)
+  | .hasLink _ _ | .hasMonitor _ _ | .targetsFor _ | .consumersFor _ => rel
+
+theorem step_refines {s : St} (h : Inv s) (op : Op) : (step s op).1.rel = specStep s.rel op := by
+  cases op <;> simp only [step, specStep]
+  · exact add_rel _ _
+  · exact remove_rel _ _
+  · exact add_rel _ _
+  · exact remove_rel _ _
+  · exact (cleanupConsumer_spec h _).1
+  · exact (cleanupTarget_spec h _).1
+  · exact (cleanupNode_spec h _).1
+
+/-- what the answers are, in terms of the set alone -/
+theorem step_out_spec {s : St} (h : Inv s) (op : Op) :
+    match op, (step s op).2 with
+    | .addLink c t, .err e => e = if (⟨c, t, false⟩ : Key) ∈ s.rel then some .exist else none
+    | .addMonitor c t, .err e => e = if (⟨c, t, true⟩ : Key) ∈ s.rel then some .exist else none
+    | .removeLink c t, .err e => e = if (⟨c, t, false⟩ : Key) ∈ s.rel then none else some .unknown
+    | .removeMonitor c t, .err e => e = if (⟨c, t, true⟩ : Key) ∈ s.rel then none else some .unknown
+    | .hasLink c t, .bool b => b = decide ((⟨c, t, false⟩ : Key) ∈ s.rel)
+    | .hasMonitor c t, .bool b => b = decide ((⟨c, t, true⟩ : Key) ∈ s.rel)
+    | .cleanupConsumer c, .keys ks => ks = s.rel.filter (fun k => decide (k.consumer = c))
+    | .targetsFor c, .keys ks => ks = s.rel.filter (fun k => decide (k.consumer = c))
+    | .cleanupTarget t, .keys ks => ks.Nodup ∧ ∀ k, k ∈ ks ↔ k ∈ s.rel ∧ k.target = t
+    | .cleanupNode n, .keys ks => ks = s.rel.filter (fun k => !consumerOn n k && targetOn n k)
+    | .consumersFor t, .pids ps => ∀ c, c ∈ ps ↔ ∃ m, (⟨c, t, m⟩ : Key) ∈ s.rel
+    | _, _ => True := by
+  cases op <;> simp only [step]
+  · exact add_err _ _
+  · exact remove_err _ _
+  · rfl
+  · exact add_err _ _
+  · exact remove_err _ _
+  · rfl
+  · rfl
+  · exact ⟨(cleanupTarget_spec h _).2.2.1, (cleanupTarget_spec h _).2.1⟩
+  · rfl
+  · rfl
+  · exact fun c => consumersFor_spec h _ c
+
+/-- a terminated target is reported to each of its holders exactly once, per relation kind (C04 uses this) -/
+theorem cleanupTarget_count {s : St} (h : Inv s) (t : Target) (k : Key) :
+    (cleanupTarget s t).2.count k = if k ∈ s.rel ∧ k.target = t then 1 else 0 := by
+  have hs := cleanupTarget_spec h t
+  rw [hs.2.2.1.count]
+  by_cases hk : k ∈ s.rel ∧ k.target = t
+  · rw [if_pos ((hs.2.1 k).mpr hk), if_pos hk]
+  · rw [if_neg (fun x => hk ((hs.2.1 k).mp x)), if_neg hk]
+
+/-- after `CleanupTarget t` / `CleanupConsumer c` nothing about `t` / `c` is left -/
+theorem cleanupTarget_gone {s : St} (h : Inv s) (t : Target) (k : Key) (hk : k ∈ (cleanupTarget s t).1.rel) :
+    k.target ≠ t := by
+  rw [(cleanupTarget_spec h t).1] at hk
+  simpa using (List.mem_filter.mp hk).2
+
+theorem cleanupConsumer_gone {s : St} (h : Inv s) (c : Pid) (k : Key) (hk : k ∈ (cleanupConsumer s c).1.rel) :
+    k.consumer ≠ c := by
+  rw [(cleanupConsumer_spec h c).1] at hk
+  simpa using (List.mem_filter.mp hk).2
+
 end ErgoVerif.TM
